@@ -21,6 +21,7 @@ class S:
     cores = Counter()
     growth = {}
     total = 0
+    req_total = 0        # admissions since reset() (not reset by outputs)
     max_per_request = 0
     input_len = 0
     dups = Counter()
@@ -33,6 +34,7 @@ installed = False
 def reset(budget=None, track=False, input_len=0):
     S.max_per_request = max(S.max_per_request, S.count)
     S.count = 0
+    S.req_total = 0
     S.budget = budget
     S.track = track
     S.input_len = input_len
@@ -100,6 +102,7 @@ def install():
             if r:
                 S.count += 1
                 S.total += 1
+                S.req_total += 1
                 if S.track:
                     core = (state.nonterminal.name(), state.position,
                             tuple(s[0].format_as_spec() for s in state.symbols), state._dot)
